@@ -686,4 +686,18 @@ theorem handle_replace_guid (h : handle st k s r = some (s', resp, eff)) (k' d :
 
 end
 
+section
+variable {st : State} {k : Nat} {s s' : Sess} {r : Req} {resp : Nat} {eff : List Effect}
+
+/-- only the twelve request types of the four protocols are ever answered -/
+theorem handle_request_type (h : handle st k s r = some (s', resp, eff)) :
+    r.typ = 10 ∨ r.typ = 12 ∨ r.typ = 20 ∨ r.typ = 22 ∨ r.typ = 30 ∨ r.typ = 32 ∨
+    r.typ = 60 ∨ r.typ = 62 ∨ r.typ = 64 ∨ r.typ = 66 ∨ r.typ = 68 ∨ r.typ = 70 := by
+  unfold handle at h
+  split at h
+  all_goals (try (simp at h; done))
+  all_goals rename_i ht
+  all_goals (rw [ht]; decide)
+end
+
 end Fdo.Proto.Server
